@@ -228,6 +228,7 @@ type clientEngine struct {
 	cbLive              map[[stun.TransactionIDSize]byte][]*cCallback
 	suspects            []cSuspect
 	cbStack             map[int][]*cCallback
+	aimClock, aimWrite  int // moments an aimed Close waits for (see aimClose)
 	fallbackCalls       []cCall
 	idCounter           int
 	zeroIDUsed          bool
@@ -310,6 +311,9 @@ func (c simClock) Now() time.Time {
 	now := e.vnow()
 	if tk := e.r.Sim.Cur(); tk != nil {
 		e.lastNow[tk.ID] = now
+		if st := e.cbStack[tk.ID]; len(st) > 0 && errors.Is(st[len(st)-1].err, stun.ErrTransactionTimeOut) {
+			e.aimClock++ // the clock is read inside the handling of a timeout: a retransmission is being prepared
+		}
 	}
 	return now
 }
@@ -951,6 +955,7 @@ func (e *clientEngine) onWriteBegin(tx *cTx, w *cWrite, data []byte) {
 		return
 	}
 	w.ok = true
+	e.aimWrite++
 	w.equal = bytes.Equal(data, tx.snapshot)
 	k := len(tx.writes)
 	tx.writes = append(tx.writes, *w)
@@ -1572,6 +1577,33 @@ func (e *clientEngine) doSetRTO(tk *verifrt.Task) {
 
 func (e *clientEngine) doClose(tk *verifrt.Task) { e.doClose2(tk, false) }
 
+// aimClose makes some Close calls of the callers "targeted": with a collector
+// whose ticks the application drives, the caller holds its Close back until the
+// client is inside a window that a uniformly placed Close rarely meets - a
+// retransmission being prepared (the clock was just read inside the handling of
+// a timeout), or a write just begun. It only decides when Close is called; the
+// caller gives up waiting as soon as the chaos phase ends or Close was called.
+func (e *clientEngine) aimClose(tk *verifrt.Task) {
+	r := e.r
+	if !e.manual || e.coll == nil || !r.Pct(35, "close-aimed") {
+		return
+	}
+	c0, w0 := e.aimClock, e.aimWrite
+	atWrite := r.Pct(30, "close-aimed-at-write")
+	e.stats["probe_close_aimed"]++
+	hit := false
+	r.Sim.BlockUntil("aim-close", hsCaller, func() bool {
+		if atWrite && e.aimWrite > w0 || !atWrite && e.aimClock > c0 {
+			hit = true
+			return true
+		}
+		return e.phase != phChaos || e.closeBegan
+	})
+	if hit {
+		e.stats["probe_close_aimed_hit"]++
+	}
+}
+
 // doClose2 closes the client through Close, or through the finalizer path
 // (which has no return value: only the resulting state is judged).
 func (e *clientEngine) doClose2(tk *verifrt.Task, viaFinalizer bool) {
@@ -1677,6 +1709,7 @@ func (e *clientEngine) callerScript(i int) func() {
 			case 3:
 				e.doSetRTO(tk)
 			case 4:
+				e.aimClose(tk)
 				e.doClose(tk)
 			case 5:
 				// reuse the id of a transaction that has ended
